@@ -212,6 +212,7 @@ inline void register_all() {
   add("GARS.Forward", {40, 10}, 1, [](X x, O o) { std::string s = SS; Fin f{[&] { sets(o, 0, s); }}; GARS::Forward(x[0], x[1], 2, s); });
   add("Georef.Forward", {40, 10}, 1, [](X x, O o) { std::string s = SS; Fin f{[&] { sets(o, 0, s); }}; Georef::Forward(x[0], x[1], 5, s); });
   add("OSGB.GridReference", {4e5, 3e5}, 1, [](X x, O o) { std::string s = SS; Fin f{[&] { sets(o, 0, s); }}; OSGB::GridReference(x[0], x[1], 4, s); });
+  add("OSGB.GridReference11", {4e5, 3e5}, 1, [](X x, O o) { std::string s = SS; Fin f{[&] { sets(o, 0, s); }}; OSGB::GridReference(x[0], x[1], 11, s); });
   add("OSGB.Forward", {52, -2}, 4, [](X x, O o) { OSGB::Forward(x[0], x[1], o[0], o[1], o[2], o[3]); });
   add("OSGB.Reverse", {4e5, 3e5}, 4, [](X x, O o) { OSGB::Reverse(x[0], x[1], o[0], o[1], o[2], o[3]); });
   // ---- azimuthal projections ----
